@@ -216,7 +216,9 @@ class Case:
                 origin.overlay.do_ping()
             elif kind == "test":
                 fut = origin.overlay.send_test_request(circuit, size, c.get("resp", 32))
-            if fault and fault["type"] == "inject":
+            if fault and fault["type"] == "inject" and fault.get("own_create"):
+                await self.inject_own_create(w, origin, circuit, path, payload, dest)
+            elif fault and fault["type"] == "inject":
                 self.inject_forged(w, circuit, path, fault, payload, dest)
             await asyncio.sleep(0.5)
             w.net.on_send = None
@@ -226,6 +228,11 @@ class Case:
             for t in loop.transports:
                 for data, addr in t.sent[sent0.get(id(t), 0):]:
                     emitted.append((data, tuple(addr)))
+            for g in got_raw:
+                if g[2][:7] == b"d4:evil":
+                    self.fail("I3", "inject:own_create" if fault and fault.get("own_create") else "inject:delivered",
+                              f"the application was handed {g[2][:24]!r} attributed to {g[1]} on circuit {g[0]}: data made up by "
+                              f"someone without the circuit's session keys (own_create: {getattr(self, 'own_create', None)})")
             honest_out = {(payload, dest)} if kind == "data_out" else set()
             honest_in = {(circuit.circuit_id, outside, payload)} if kind == "data_in" and not nested and not te else set()
             escaped = [(type(e).__name__, str(e)[:60]) for (_, _, _, e) in w.net.escaped]
@@ -351,6 +358,41 @@ class Case:
             dst = target.address6
             src = ("2001:db8::bad", 6000) if not fault.get("spoof") or prev_node.address6 is None else prev_node.address6
         w.net.inject(src, dst, cell)
+
+    async def inject_own_create(self, w: World, origin, circuit, path, payload: bytes, dest: tuple) -> None:
+        """
+        The first hop (it holds its own layer's keys only) asks the originator to JOIN a circuit under the id of the
+        originator's own circuit; if that is answered it completes the handshake and sends a data cell under the fresh
+        keys alone. Wire format only (reference encodings); the key agreement uses the library's primitives.
+        """
+        from ipv8.messaging.anonymization.crypto import TunnelCrypto
+        tc = TunnelCrypto()
+        first = path[0]
+        cid = circuit.circuit_id
+        secret, X = tc.generate_diffie_secret()
+        pk = origin.key.pub().key_to_bin()
+        create = b"\x02" + struct.pack(">HH", 4242, len(pk)) + pk + struct.pack(">H", len(X)) + X
+        mark = w.net.seq
+        w.net.inject(first.address, origin.address, w.prefix + b"\x00" + struct.pack(">I", cid) + b"\x01\x00" + create,
+                     note="create naming the receiver's own circuit id")
+        await asyncio.sleep(0.2)
+        answer = None
+        for fl in w.net.log:
+            cell = parse_cell(fl.data, w.prefix) if fl.seq > mark and fl.origin is origin.raw_endpoint else None
+            if cell is not None and cell["plaintext"] and cell["circuit_id"] == cid and cell["message"][:1] == b"\x03":
+                answer = cell["message"]
+        if answer is None:
+            self.own_create = "refused"
+            return
+        self.own_create = "answered"
+        ident, n = struct.unpack_from(">HH", answer, 1)
+        Y, auth = answer[5:5 + n], answer[5 + n:5 + n + 32]
+        shared = tc.verify_and_generate_shared_secret(secret, Y, auth, origin.key.pub().get_crypt_pk())
+        keys = tc.generate_session_keys(shared)
+        evil = b"d4:evil" + payload[7:] if len(payload) > 8 else b"d4:evile"
+        msg = b"\x01" + ref_addr(dest) + ref_addr(("6.6.6.6", 666)) + evil
+        w.net.inject(first.address, origin.address, w.prefix + b"\x00" + struct.pack(">I", cid) + b"\x00\x00"
+                     + keys.encrypt_str(msg, FORWARD), note="data under the keys of the bogus join")
 
     def check_layers(self, w, seq0, circuit, path, refs, kind, payload, dest, outside, origin, links_fw) -> None:
         hops = len(path)
@@ -816,6 +858,7 @@ def _strategy():
         st.fixed_dictionaries({"type": st.just("swapcid"), "link": st.integers(0, 2)}),
         st.fixed_dictionaries({"type": st.just("inject"), "link": st.integers(0, 2), "plain": st.booleans(),
                                "spoof": st.booleans(), "bare": st.booleans(), "v6": st.booleans()}),
+        st.fixed_dictionaries({"type": st.just("inject"), "link": st.just(0), "own_create": st.just(1)}),
     )
     return st.fixed_dictionaries({
         "seed": st.integers(0, 10_000),
@@ -863,6 +906,20 @@ def _sweep_shard(ctx: Ctx, shard: int, nshards: int, hops: int, size: int, step:
     # every byte position of one data cell, on every link
     total = CELL_HDR + 24 * hops + 15 + size + 2
     k = 0
+    # a member of the circuit asks the originator to join a circuit under the originator's own circuit id, then sends data
+    for h in (1, 2, 3):
+        for kind in ("data_in", "data_out", "ping"):
+            for stack in (None, "dual"):
+                k += 1
+                if k % nshards != shard:
+                    continue
+                case = {"seed": 5, "hops": h, "kind": kind, "size": 64, "shape": "bt", "nested": 0, "te": 0, "retiring": 0,
+                        "stack": stack, "dest": ["5.5.5.5", 5555], "resp": 32, "nodes": h + 1,
+                        "fault": {"type": "inject", "link": 0, "own_create": 1}}
+                try:
+                    run_case(ctx, case)
+                except Violation as v:
+                    ctx.violation(v)
     for kind in ("data_out", "data_in"):
         for link in range(hops):
             for byte in range(0, total, step):
